@@ -269,6 +269,20 @@ def check_property(pid, tier="quick", seed=0, verbose=True):
                 break
         if not ok:
             vac_errors.append(f"{ident}: every return path is infeasible under the preconditions (vacuous contract)")
+    def _fails_now(v):
+        if not v.required or v.result["result"] == "unsat":
+            return False
+        if v.result["result"] == "sat":
+            return True
+        b_ = baseline.get(v.name)
+        return bool(b_) and v.hash not in b_.get("hashes", [])  # passed on the unchanged tree, different VC now, not discharged
+
+    if vac_errors and any(_fails_now(v) for v in vcs):
+        # a failing obligation explains the unreachable returns (e.g. an invariant that the changed code no
+        # longer establishes is assumed at the loop head): report that obligation, not a checker error
+        for e in vac_errors:
+            log("note (vacuity, superseded by a failing obligation): " + e)
+        vac_errors = []
     if vac_errors:
         for e in vac_errors:
             log("CHECKER-ERROR vacuity: " + e)
